@@ -4,6 +4,9 @@
            #![deny(improper_ctypes_definitions, improper_ctypes)] (rustc's lints are silent on proc-macro output but fire on the re-compiled
            expansion); output 1 = rustc accepts every signature, 0 = an FFI lint fired.  The Coq predicate ffi_safe must give the same verdict —
            on well-formed traits (accept) and on traits outside the grammar (CResult with an error type without C repr: reject).
+ '203 <k> |' the k-th C-compatible type the library ships (gencommon.RT_TYPES: runtime wrappers instantiated, generated object/group types, the library's
+           own Future/Stream/Sink/Clone/Debug objects; features task + futures) declared as a foreign-function parameter under #![deny(improper_ctypes)]:
+           rustc judges the type recursively through its fields.
 Monitor: a well-formed trait on which rustc's lint fires is a violation; the runtime struct declarations (regenerated from source) must all
 carry a C repr (theorem C03_runtime over gen/RtStructs_Src.v)."""
 import os
@@ -45,7 +48,11 @@ def run_impl(lines):
 
 
 def model_line(l):
-    return l
+    return "0 |" if l.startswith("203 ") else l
+
+
+def compare(l, impl_rows, model_rows):
+    return True if l.startswith("203 ") else impl_rows == model_rows
 
 
 def nontrivial(l):
@@ -56,7 +63,9 @@ def gen_cases(rng, tier):
     a, d1 = G.ir_cases(rng, "quick")
     b, d2 = G.lint_cases(rng, tier)
     d1.update(d2)
-    return a + b, d1
+    c = ["203 %d |" % k for k in range(len(G.RT_TYPES))]
+    d1["runtime_wrapper_types_judged_by_rustc"] = len(c)
+    return a + b + c, d1
 
 
 def monitor(l, impl_rows, kv):
@@ -67,6 +76,10 @@ def monitor(l, impl_rows, kv):
         wf = all(G.wf(hdr[1], m[1], m[2]) for m in methods)
         if wf and impl_rows.strip() == "0":
             return ["rustc's FFI lint fires on the vtable of a trait that uses only C-representable leaves and the documented auto-wrapped shapes"]
+    if l.startswith("203 "):
+        k = int(l.split()[1])
+        if impl_rows.strip() == "0":
+            return ["rustc's FFI lint fires on the runtime type %s declared as a foreign-function parameter (features task + futures): it has no defined C representation" % G.RT_TYPES[k % len(G.RT_TYPES)]]
     return []
 
 
